@@ -106,6 +106,17 @@ class Def:
             self._compiled = Compiled(self)
         return self._compiled
 
+    def oracle_selfcheck(self):
+        """cross-check of the reference automata against an independent matcher; -> None or a message"""
+        comp = self.compiled()
+        for _, rules in self.rulesets:
+            for r in rules:
+                for rx in ([r.regex] + ([r.ctx] if r.ctx is not None else [])):
+                    w = R.crosscheck(rx, comp.part)
+                    if w is not None:
+                        return 'reference automaton and position-set matcher disagree on %s for class word %r' % (R.show(rx), w)
+        return None
+
     def wellformed(self):
         for _, rules in self.rulesets:
             for r in rules:
@@ -225,7 +236,9 @@ def ref_next(d, o, st):
                     raise RefAbort('rule matches the empty string')
                 last = (i, k, False)
                 break
-            if not auto.extensible(s):
+            if not auto.extensible(s) and i > st.p:
+                # a state without successors is never entered: the action runs on the transition into it.
+                # (the entry state of an empty rule set is the exception: it exists and reads a character)
                 stop = 'terminal'
                 break
             c = o.sym(i)
